@@ -100,7 +100,7 @@ def local_time(ctx, b, a_lo, a_hi):
 
 def date_getters(ctx, kind, which):
     P = ctx.P
-    y = ctx.year("y", 1, 9999)
+    y = ctx.year("y", 1, 9999) if kind != "zone" else ctx.year("y", 1998, 2000)
     m = ctx.int("m", 1, 12)
     d = ctx.int("d", 1, 31)
     ctx.assume(d <= cal.days_in_month(y, m))
@@ -202,7 +202,7 @@ def cases(tier):
         for kind in ("date", "datetime") for g in GETTERS
     ] + [
         dict(name=f"zone {g}", fn=date_getters, params=dict(kind="zone", which=g),
-             bounds="every valid DateTime (whole minutes, both folds) in years 1..9999 in a zone with one transition anywhere "
+             bounds="every valid DateTime (whole minutes, both folds) in years 1998..2000 in a zone with one transition anywhere "
                     "within +-400 days, any offsets")
         for g in ("day_of_year", "day_of_week", "week_of_year", "days_in_month", "quarter")
     ]
